@@ -5,12 +5,16 @@
 package main
 
 import (
+	"encoding/json"
 	"flag"
 	"fmt"
 	"os"
+	"path/filepath"
 	"runtime/debug"
 	"sort"
 	"strconv"
+
+	"golang.org/x/tools/go/packages"
 )
 
 // Ctx - lazily loaded universes shared by the rules of one run
@@ -75,7 +79,37 @@ func main() {
 	tier := flag.String("tier", "quick", "quick|thorough")
 	prop := flag.String("prop", "", "property id (C01..C20)")
 	list := flag.Bool("list", false, "list properties")
+	genFuncs := flag.Bool("gen-functions", false, "maintenance: write tables/functions.json (the function inventory renames are resolved against) from -repo")
 	flag.Parse()
+	tablesDir = filepath.Join(*verif, "tables")
+	if *genFuncs {
+		tablesDir = ""
+		var inv []funcRecord
+		for _, spec := range []struct {
+			rels []string
+			goos string
+		}{{corePkgs, ""}, {[]string{"pkg/server"}, "darwin"}} {
+			u, err := loadUniverse(*repo, "inventory", spec.rels, spec.goos)
+			if err != nil {
+				fmt.Println("ERROR:", err)
+				os.Exit(2)
+			}
+			pk := map[string]*packages.Package{}
+			for rel, p := range u.Pkgs {
+				if spec.goos == "" || rel == "pkg/server" {
+					pk[rel] = p
+				}
+			}
+			inv = append(inv, functionInventory(pk)...)
+		}
+		b, _ := json.MarshalIndent(inv, "", " ")
+		if err := os.WriteFile(filepath.Join(*verif, "tables", "functions.json"), b, 0o644); err != nil {
+			fmt.Println("ERROR:", err)
+			os.Exit(2)
+		}
+		fmt.Printf("wrote %d function records\n", len(inv))
+		return
+	}
 	if *list {
 		var ids []string
 		for id := range props {
